@@ -183,21 +183,21 @@ theorem acceptor_sound (n k : Nat) (ids : List Nat) (h : isInterleaving n k ids 
 theorem receiver_handlers (k cap : Nat) (ids : List Nat) (hcap : ids.length ≤ cap)
     (j : Nat) (f : Nat × Nat) (hj : filters[j]? = some f) :
     ∃ h', (deliver k cap ids).slots[j]? = some (some h') ∧
-      h'.received = ((ids.map (msgOf k)).filter (Spec.matches ⟨f.1, f.2, 0, cap⟩)).map (·.id) := by
+      h'.received = ((ids.map (msgOf k)).filter (Spec.matches ⟨f.1, f.2, 0, cap, false⟩)).map (·.id) := by
   have hlen : ∀ (sp : Spec), ((ids.map (msgOf k)).filter sp.matches).length ≤ cap :=
     fun sp => Nat.le_trans (List.length_filter_le _ _) (by simpa using hcap)
-  have key : ∀ (h : HS), (receiver cap).slots[j]? = some (some h) → h.spec = ⟨f.1, f.2, 0, cap⟩ → h.queued = 0 →
+  have key : ∀ (h : HS), (receiver cap).slots[j]? = some (some h) → h.spec = ⟨f.1, f.2, 0, cap, false⟩ → h.queued = 0 →
       h.received = [] → ∃ h', (deliver k cap ids).slots[j]? = some (some h') ∧
-      h'.received = ((ids.map (msgOf k)).filter (Spec.matches ⟨f.1, f.2, 0, cap⟩)).map (·.id) := by
+      h'.received = ((ids.map (msgOf k)).filter (Spec.matches ⟨f.1, f.2, 0, cap, false⟩)).map (·.id) := by
     intro h hs hsp hq hr
     obtain ⟨h', a, b, _⟩ := handler_gets_selected_subsequence (ids.map (msgOf k)) (receiver cap) j h hs
       (by rw [hsp]) (by rw [hq, hsp]; simpa using hlen _)
     exact ⟨h', a, by rw [b, hr, hsp]; simp⟩
   match j, hj with
-  | 0, hj => simp [filters] at hj; subst hj; exact key ⟨0, ⟨2, 0, 0, cap⟩, 0, [], 0, 0⟩ (by simp [receiver, filters, make, place]) rfl rfl rfl
-  | 1, hj => simp [filters] at hj; subst hj; exact key ⟨1, ⟨3, 1, 0, cap⟩, 0, [], 0, 0⟩ (by simp [receiver, filters, make, place]) rfl rfl rfl
-  | 2, hj => simp [filters] at hj; subst hj; exact key ⟨2, ⟨5, 4, 0, cap⟩, 0, [], 0, 0⟩ (by simp [receiver, filters, make, place]) rfl rfl rfl
-  | 3, hj => simp [filters] at hj; subst hj; exact key ⟨3, ⟨1, 0, 0, cap⟩, 0, [], 0, 0⟩ (by simp [receiver, filters, make, place]) rfl rfl rfl
+  | 0, hj => simp [filters] at hj; subst hj; exact key ⟨0, ⟨2, 0, 0, cap, false⟩, 0, [], 0, 0⟩ (by simp [receiver, filters, make, place]) rfl rfl rfl
+  | 1, hj => simp [filters] at hj; subst hj; exact key ⟨1, ⟨3, 1, 0, cap, false⟩, 0, [], 0, 0⟩ (by simp [receiver, filters, make, place]) rfl rfl rfl
+  | 2, hj => simp [filters] at hj; subst hj; exact key ⟨2, ⟨5, 4, 0, cap, false⟩, 0, [], 0, 0⟩ (by simp [receiver, filters, make, place]) rfl rfl rfl
+  | 3, hj => simp [filters] at hj; subst hj; exact key ⟨3, ⟨1, 0, 0, cap, false⟩, 0, [], 0, 0⟩ (by simp [receiver, filters, make, place]) rfl rfl rfl
   | n + 4, hj => simp [filters] at hj
 
 /-! ### non-vacuity -/
